@@ -137,7 +137,9 @@ DoClose(f) == LET r == WClose(ws, f) IN
 RCall == Mode = "reader" /\ (\E n \in ReadSizes : Call(n)) /\ UNCHANGED <<ws, wlog>>
 RFill == Mode = "reader" /\ Fill /\ UNCHANGED <<ws, wlog>>
 RProbe == Mode = "reader" /\ Probe /\ UNCHANGED <<ws, wlog>>
-WCanStep == Mode = "writer" /\ wlog.calls < MaxWrites /\ (ws.err # "closed" \/ ~KeepHist)
+\* generation runs stop at Close, except in mode "writer-postclose", whose histories go on calling a closed writer
+IsWriter == Mode \in {"writer", "writer-postclose"}
+WCanStep == IsWriter /\ wlog.calls < MaxWrites /\ (ws.err # "closed" \/ ~KeepHist \/ Mode = "writer-postclose")
 WWriteA == /\ WCanStep
            /\ \E n \in WriteSizes : \E f \in (IF Faults THEN 0..(Flushes(ws.buf, n)) ELSE {0}) : DoWrite(n, f)
            /\ UNCHANGED rvars
@@ -188,6 +190,6 @@ EmitReader == (KeepHist /\ Mode = "reader" /\ rerr # "none" /\ unread = 0 /\ pha
    PrintT("CASE " \o ToJson([file |-> file, avail |-> avail, failAt |-> failAt, fired |-> fired, hist |-> hist,
                               class |-> rerr, released |-> released, honest |-> IsHonest(file, avail)]))
 \* a complete writer history (closed, or failed)
-EmitWriter == (KeepHist /\ Mode = "writer" /\ ws.err # "none") =>
+EmitWriter == (KeepHist /\ IsWriter /\ ws.err # "none") =>
    PrintT("CASE " \o ToJson([hist |-> hist, frames |-> ws.frames, acc |-> ws.acc, err |-> ws.err, allOK |-> wlog.allOK]))
 =============================================================================
